@@ -78,7 +78,7 @@ def _body_brace(toks, start=0):
         if t.kind == "punct":
             if t.text in ("(", "["):
                 i = match_close(toks, i)
-            elif t.text == "{":
+            elif t.text == "{" or t.text == ";":
                 return i
         i += 1
     raise Unsupported("no body")
@@ -370,6 +370,13 @@ def _splice_fn(text, d, where):
         edits.append((toks[arrow + 1].start, "(%s: %s)" % (d["ret"], ty), toks[end - 1].end - toks[arrow + 1].start))
     if d.get("sig"):
         edits.append((toks[body_open].start, "\n" + d["sig"] + "\n", 0))
+    if toks[body_open].text == ";":
+        if d.get("loops") or d.get("proofs"):
+            raise Unsupported("%s: loop/proof directives on a bodyless fn" % where)
+        edits.sort(key=lambda e: e[0], reverse=True)
+        for off, ins, rl in edits:
+            text = text[:off] + ins + text[off + rl:]
+        return text
     body_close = match_close(toks, body_open)
     loops = _loops(toks, body_open, body_close)
     for n, (it, spec) in d.get("loops", {}).items():
@@ -411,6 +418,8 @@ def vacuity_twin(text):
     toks = tokenize(text)
     fn_i = next(i for i, t in enumerate(toks) if t.text == "fn")
     body_open = _body_brace(toks, fn_i)
+    if toks[body_open].text == ";":
+        return ""
     nm = toks[fn_i + 1]
     header = text[:nm.start] + "vacuity__" + nm.text + text[nm.end:toks[body_open].start]
     return header + "{ proof { assert(false); } vstd::pervasive::unreached() }"
@@ -480,6 +489,12 @@ def assemble(template_path, repo):
         if not s.startswith("//@"):
             out.append(ln)
             i += 1
+            continue
+        mi = re.match(r"//@include\s+(\S+)$", s)
+        if mi:
+            inc = os.path.join(os.path.dirname(template_path), mi.group(1))
+            with open(inc, encoding="utf-8") as f:
+                lines[i:i + 1] = f.read().split("\n")
             continue
         m = re.match(r"//@(item|fn|frag)\s+(\S+)\s*::\s*(.*)$", s)
         if not m:
